@@ -212,7 +212,7 @@ def validate(rep, native, scens, driver_setup=None, symrun=None, natrun=None):
 
 def scenario_check(prop, tier, seed, items, evaluate, sig_of, bounds, assumptions, rule, expected_cells=None,
                    n_validate=None, driver_setup=None, hooks=False, chunksize=8, symrun=None, natrun=None, pre_finish=None,
-                   stream=None):
+                   stream=None, escalate=None):
     rep = Report(prop, tier, seed)
     rep.bounds = bounds
     rnd = random.Random(seed)
@@ -228,7 +228,7 @@ def scenario_check(prop, tier, seed, items, evaluate, sig_of, bounds, assumption
     if stream is not None:
         # large families: generated lazily, results folded in as they arrive
         parallel_stream(stream(), make_worker(prop, evaluate, driver_setup, symrun), rep.absorb, chunksize=128)
-    triage(rep, native, native_evaluator(prop, evaluate), sig_of, natrun=natrun)
+    triage(rep, native, native_evaluator(prop, evaluate), sig_of, natrun=natrun, escalate=escalate)
     if expected_cells is not None:
         missing = set(map(str, expected_cells)) - set(rep.cells)
         if missing:
